@@ -240,6 +240,22 @@ pub fn gen_c13(tier: &str, seed: u64, out: &str, mc: Option<&str>) -> Value {
     let o2 = order.clone();
     let warm = in_fresh_thread(move || o2.iter().map(|&i| (i, public_call(i).1, public_call(i).1)).collect::<Vec<_>>());
     for (i, a, b) in warm { per_call[i].push(("after random history".into(), a)); per_call[i].push(("warm repeat".into(), b)); }
+    // a thread that starts only AFTER another thread has filled every memo slot and finished (state leaking through
+    // anything shared between threads would show here), and one that runs while such a "warm" thread is still alive
+    let warm_all = || { let proj = DodecahedronProjection::get_thread_local(); for &k in &all_keys() { let _ = proj_call(proj, k, 0, 0.5); let _ = proj_call(proj, k, 1, 0.5); } };
+    in_fresh_thread(warm_all);
+    let after: Vec<(usize, String)> = in_fresh_thread(|| (0..N_PUBLIC).step_by(3).map(|i| (i, public_call(i).1)).collect());
+    for (i, r) in after { per_call[i].push(("fresh thread after another thread filled all slots".into(), r)); }
+    {
+        let (tx, rx) = mpsc::channel::<()>();
+        let (tx2, rx2) = mpsc::channel::<()>();
+        let keeper = std::thread::spawn(move || { let proj = DodecahedronProjection::get_thread_local(); for &k in &all_keys() { let _ = proj_call(proj, k, 1, 0.5); } tx2.send(()).unwrap(); rx.recv().ok(); });
+        rx2.recv().unwrap();
+        let during: Vec<(usize, String)> = in_fresh_thread(|| (1..N_PUBLIC).step_by(3).map(|i| (i, public_call(i).1)).collect());
+        tx.send(()).unwrap();
+        keeper.join().unwrap();
+        for (i, r) in during { per_call[i].push(("fresh thread beside a live fully warmed thread".into(), r)); }
+    }
     // 16 threads at once in this process
     let barrier = Arc::new(Barrier::new(16));
     let mut hs = vec![];
